@@ -16,6 +16,7 @@ import (
 	"github.com/bronlabs/bron-crypto/pkg/mpc/sharing/accessstructures/unanimity"
 	"github.com/bronlabs/bron-crypto/pkg/mpc/sharing/scheme/kw"
 	"github.com/bronlabs/bron-crypto/pkg/mpc/sharing/scheme/kw/msp"
+	"github.com/bronlabs/bron-crypto/pkg/network"
 
 	"verif/ref"
 	"verif/sim"
@@ -494,14 +495,11 @@ func genGate(w *rand.Rand, ids []sim.ID, depth int) *gate {
 }
 
 func newCNF(us [][]sim.ID) (accessstructures.Monotone, error) {
-	switch len(us) {
-	case 1:
-		return cnf.NewCNFAccessStructure(quorumOf(us[0]))
-	case 2:
-		return cnf.NewCNFAccessStructure(quorumOf(us[0]), quorumOf(us[1]))
-	default:
-		return cnf.NewCNFAccessStructure(quorumOf(us[0]), quorumOf(us[1]), quorumOf(us[2]))
+	sets := make([]network.Quorum, 0, len(us))
+	for _, u := range us {
+		sets = append(sets, quorumOf(u))
 	}
+	return cnf.NewCNFAccessStructure(sets...)
 }
 
 // ---- MSP as data, and reference checks on shares ----
